@@ -83,7 +83,7 @@ func setup() {
 		{GOGARBLE: mod}, {GOGARBLE: mod, Literals: true}, {ControlFlow: true}, {ControlFlow: true, Literals: true}, {ControlFlow: true, Seed: seed}} {
 		jobs = append(jobs, job{c, h.LevelStd})
 	}
-	jobs = append(jobs, job{h.Config{}, h.LevelTest}, job{h.Config{Literals: true, Tiny: true, Seed: seed}, h.LevelTest}, job{h.Config{Tiny: true}, h.LevelRT})
+	jobs = append(jobs, job{h.Config{}, h.LevelTest}, job{h.Config{Literals: true, Tiny: true, Seed: seed}, h.LevelTest}, job{h.Config{Seed: seed}, h.LevelTest})
 	sem := make(chan struct{}, 4)
 	var wg sync.WaitGroup
 	var mu sync.Mutex
